@@ -303,9 +303,28 @@ _MORE2 = {
            'which Story::pointer_at_path passes for a position directly in the root.',
     'C20': ' Added from seed batch 9: the output file is written with fs::write or through a file created anew / truncated.',
 }
+# clauses added from seed batch 10
+_MORE3 = {
+    'C02': ' Added from seed batch 10: the equal-to-default test is exact (no ordering comparison, subtraction, abs, rounding).',
+    'C03': ' Added from seed batch 10: a closure that changes the element it is shown, under the short-circuiting consumers '
+           'any / all over a hash collection, is an order-dependent partial traversal.',
+    'C04': ' Added from seed batch 10: every panicking zero check of a division / remainder (any integer type) is dominated '
+           'by a test that keeps 0 away from the divisor.',
+    'C07': ' Added from seed batch 10: in list_with_sub_range a list-valued lower bound contributes its minimum, an upper '
+           'bound its maximum.',
+    'C08': ' Added from seed batch 10 (shared with C11): whether the end-of-line work on variable observation runs is control '
+           'dependent, over the successful runs and followed through flags, only on the completion test and the '
+           'outermost-continue test - not on whether this call started the line.',
+    'C11': ' Added from seed batch 10: no mutating closure under a short-circuiting iterator adaptor in the observer '
+           'functions; the closing of the batch is followed through flags and computed over successful runs.',
+    'C15': ' Corrected after seed batch 10: Index on a serde_json::Map is a panic site (only Index on a Value yields Null).',
+    'C17': ' Added from seed batch 10: every successful path of reset_callstack passes force_end.',
+}
 for _k, _v in _MORE.items():
     CHECKS[_k]['text'] += _v
 for _k, _v in _MORE2.items():
+    CHECKS[_k]['text'] += _v
+for _k, _v in _MORE3.items():
     CHECKS[_k]['text'] += _v
 
 NOT_APPLICABLE = {
